@@ -142,7 +142,7 @@ def _zodb_frame(tb):
 def run_case(mod, case, timeout=None):
     """execute(case) -> Outcome; escaping exceptions are classified:
     with a frame inside ZODB -> failure 'unexpected-exception'; otherwise harness error."""
-    timeout = timeout or getattr(mod, 'CASE_TIMEOUT', 120)
+    timeout = timeout or getattr(mod, 'CASE_TIMEOUT', 40)
 
     def on_alarm(signum, frame):
         raise CaseTimeout()
@@ -151,8 +151,15 @@ def run_case(mod, case, timeout=None):
     try:
         try:
             out = mod.execute(case)
-        except CaseTimeout:
-            raise HarnessError('case exceeded watchdog of %ds: %s' % (timeout, canon(case)[:2000]))
+        except CaseTimeout as e:
+            where = _zodb_frame(e.__traceback__)
+            if where is None:
+                raise HarnessError('case exceeded watchdog of %ds: %s' % (timeout, canon(case)[:2000]))
+            # the code under test did not return: reported as a finding (not decided by time alone:
+            # cases of this check take milliseconds, the watchdog is 3-4 orders of magnitude above)
+            out = Outcome()
+            out.fail((mod.PROPERTY, 'execute', 'hang', where),
+                     'no progress for %ds inside %s\n%s' % (timeout, where, ''.join(traceback.format_tb(e.__traceback__)[-6:])))
         except (KeyboardInterrupt, SystemExit, HarnessError):
             raise
         except BaseException as e:
@@ -254,6 +261,9 @@ def worker_main(modname, tier, seed, w, nw, examples, outpath, known_sigs):
             for f in out.failures:
                 if f.sig not in known_sigs:
                     unknown.add(f.sig)
+                if len(f.sig) > 2 and f.sig[2] == 'hang':
+                    # every further hanging case would cost a full watchdog period: stop this worker
+                    unknown.update(('stop', i) for i in range(MAX_UNKNOWN_SIGS))
 
         if hasattr(mod, 'extra_cases'):
             for case in mod.extra_cases(tier, seed, w, nw):
@@ -570,8 +580,9 @@ def main(modname, argv):
                 if line not in known_lines:
                     known_lines.append(line)
                 continue
-            small, runs = ddmin(mod, case, sig, ddbudget)
-            out = run_case(mod, small)
+            hang = len(sig) > 2 and sig[2] == 'hang'
+            small, runs = (case, 0) if hang else ddmin(mod, case, sig, ddbudget)
+            out = Outcome() if hang else run_case(mod, small)
             m = [f.msg for f in out.failures if f.sig == sig]
             path = write_replay(prop, sig, small, m[0] if m else msg)
             violations.append((sig, path, (m[0] if m else msg) + '\n(seen %d times; shrunk in %d runs)' % (n, runs)))
